@@ -206,3 +206,50 @@ Fixpoint known_touch_from (c : N) (t : table) (ops : list op) : bool :=
 
 Definition Known_C15_session_touch (c : N) (shard : N) (ops : list op) : Prop :=
   known_touch_from c (empty_table shard) ops = true.
+
+(* ---- the repaired caller discipline of the prefix-limit counter (C15) ----
+   For the session whose counter is [c], of the peer with address [a] and
+   configured maximum [mx]: the counter is created by a synchronisation with the
+   RIB; while the session lives every insert and withdrawal of the peer carries
+   the counter (with the maximum), a purge of the peer's stale routes either
+   carries it or is followed by a synchronisation before the counter is used
+   again, the peer is not dropped, and nobody else uses the counter.
+   [pending] = a purge ran without the counter and no synchronisation yet. *)
+From RB Require Import Model.RibSession.
+
+Definition lim_is (lim : option (N * N)) (mx c : N) : bool :=
+  match lim with Some (m, c') => (m =? mx) && (c' =? c) | None => false end.
+Definition lim_uses (lim : option (N * N)) (c : N) : bool :=
+  match lim with Some (_, c') => c' =? c | None => false end.
+Definition ctr_is (ctr : option N) (c : N) : bool :=
+  match ctr with Some c' => c' =? c | None => false end.
+
+Definition disc_head (a c mx : N) (pending : bool) (o : sop) : option bool :=
+  match o with
+  | Sync c' a' => if c' =? c then (if a' =? a then Some false else None) else Some pending
+  | Tbl (Insert s _ _ _ _ _ _ lim) =>
+      if s_addr s =? a then (if negb pending && lim_is lim mx c then Some false else None)
+      else (if lim_uses lim c then None else Some pending)
+  | Tbl (Remove s _ _ ctr) =>
+      if s_addr s =? a then (if negb pending && ctr_is ctr c then Some false else None)
+      else (if ctr_is ctr c then None else Some pending)
+  | Tbl (Drop DKAll a' _) => if a' =? a then None else Some pending
+  | Tbl (Drop _ a' ctr) =>
+      if a' =? a then
+        match ctr with
+        | Some c' => if (c' =? c) && negb pending then Some false else None
+        | None => Some true
+        end
+      else (if ctr_is ctr c then None else Some pending)
+  | Tbl _ => Some pending
+  end.
+
+Fixpoint session_disciplined (a c mx : N) (pending : bool) (ops : list sop) : bool :=
+  match ops with
+  | [] => negb pending
+  | o :: r =>
+      match disc_head a c mx pending o with
+      | Some p' => session_disciplined a c mx p' r
+      | None => false
+      end
+  end.
